@@ -8,6 +8,14 @@ NOTES = ("Driver: /verif/verif (python3, stdlib). Every check rebuilds harness/c
          "Known findings: /verif/KNOWN_FINDINGS.txt (read-only at run time). VERIF_SEED selects the rapid seeds; sweeps ignore it.")
 
 CLAIMED = {
+ "C07": dict(
+    technique="fuzzing + property-based testing: rapid-driven structure-aware hostile generators over conformant seed frames, exhaustive truncation/byte sweeps, Go native coverage-guided fuzzing (thorough), with a totality monitor (panic / hang / heap / allocation envelope) as oracle",
+    level_text="Conformant frames of every kind from the independent encoder are mutated field-aware (structural slots incl. the carried packet's length fields, boundary values, adjacent pairs), byte-wise, spliced, and amplified to the 64 KiB frame limit; every truncation offset and single-byte 0x00/0xff overwrite of seed frames is enumerated; thorough adds 240 s of native coverage-guided fuzzing. Each input must give (message|error), no panic, return within 20 s, < 1 GiB heap growth and allocation within 1 KiB/byte + 4 MiB.",
+    level_note="Totality can only be sampled; allocation volume is a proxy for proportional work. A regression corpus of every input that once crashed/hung Parse is replayed at the start of every run."),
+ "C14": dict(
+    technique="property-based concurrency testing: generated batches run sequentially then concurrently (differential), xid distinctness over sets, Go race detector; schedules sampled",
+    level_text="Rounds of 2..64 goroutines draw ids through the shared generator, own generators and message constructors (counter pre-set near 2^32 through the hook in a third of the rounds): all ids pairwise distinct, per-goroutine monotone. Batches of generated build/encode/parse/re-encode programs (rapid.Custom evaluated by seed) must give concurrently exactly the bytes and deep dumps they give sequentially. Everything also runs under -race; a report is a violation.",
+    level_note="The Go scheduler is not controllable: interleavings are sampled (GOMAXPROCS varied, barrier start, yields), not enumerated; overlap is measured and reported."),
  "C15": dict(
     technique="exhaustive enumeration (all registered names x mask x spelling; header words, all 2^32 in thorough) + rapid lookup/mutate/lookup histories against an independent width table + race detector on concurrent lookups",
     level_text="Every registered name (obtained through the verif hook) x mask on/off x three spellings is compared with a width table transcribed from OF1.3.5 and OVS meta-flow.h; pack/unpack of header words is enumerated (16 classes x 2^16 + all classes x 10 low halves in quick, all 2^32 words in thorough); independence of results is checked by generated lookup/modify/lookup histories, by the stored registry entries afterwards, and concurrently under -race.",
@@ -49,4 +57,4 @@ for k in CLAIMED:
     ENGINES[0]["serves_properties"].append(k)
 
 NOT_APPLICABLE = {p: "check under construction in this round (design in DESIGN.md section 10); not claimed until it runs clean on the unchanged tree"
-                  for p in ["C05","C06","C07","C08","C09","C10","C11","C12","C13","C14"]}
+                  for p in ["C05","C06","C08","C09","C10","C11","C12","C13"]}
